@@ -29,6 +29,7 @@ type flowCase struct {
 	ExtraArg []string
 	Tweak    func(*pgen.Spec)
 	SlowOne  int // >0: one stage call (chosen by seed) finishes this many ms late
+	Crash     string      // VERIF_CRASH spec for a first run; mrp is then restarted on the same pipestance
 	Rules     []pgen.Rule // probe behaviour rules (faults, delays) for this case
 	AutoRetry int         // --autoretry value
 	Timeout  time.Duration
@@ -48,6 +49,7 @@ type flowResult struct {
 	races   []vrun.RaceReport
 	sched   string
 	partial bool
+	crashed bool // the first run was interrupted at the requested point
 	vdr     vmon.VdrStats
 }
 
@@ -121,6 +123,21 @@ func runFlowCase(c *vf.Ctx, fc *flowCase) *flowResult {
 	}
 	args := []string{"--vdrmode=" + fc.Vdr, fmt.Sprintf("--localcores=%d", cores), "--localmem=16", fmt.Sprintf("--autoretry=%d", fc.AutoRetry)}
 	args = append(args, fc.ExtraArg...)
+	if fc.Crash != "" {
+		// interrupted first run, then a restart on the same directory
+		r1 := cs.Run(vrun.RunOpts{Race: fc.Race, Args: args, Seed: fc.Seed, Delays: fc.Delays, Inventory: true,
+			Timeout: pickTimeout(fc.Timeout), Crash: fc.Crash})
+		if r1.TimedOut {
+			cs.KillAll()
+		}
+		res.crashed = crashFired(cs.Trace(), fc.Crash)
+		if !cs.WaitOrphans(20 * time.Second) {
+			cs.KillAll()
+		}
+		if res.crashed && strings.HasSuffix(fc.Crash, ":KILL") {
+			os.Remove(filepath.Join(cs.PsDir, "_lock")) // as the operator is told to
+		}
+	}
 	res.run = cs.Run(vrun.RunOpts{Race: fc.Race, Args: args, Seed: fc.Seed, Delays: fc.Delays, Inventory: true,
 		Timeout: pickTimeout(fc.Timeout), StallLoops: 25})
 	if res.run.TimedOut {
@@ -231,7 +248,9 @@ func flowCampaign(c *vf.Ctx, prop string, cases []*flowCase, nontrivial func(*fl
 		res := runFlowCase(c, fc)
 		mu.Lock()
 		defer mu.Unlock()
-		defer os.RemoveAll(res.dir)
+		if os.Getenv("VERIF_KEEP") == "" {
+			defer os.RemoveAll(res.dir)
+		}
 		if res.rejected != "" {
 			c.Count("programs_rejected_by_compiler", 1)
 			rejected[truncate(res.rejected, 100)]++
@@ -246,6 +265,13 @@ func flowCampaign(c *vf.Ctx, prop string, cases []*flowCase, nontrivial func(*fl
 			return
 		}
 		c.Eval(1)
+		if fc.Crash != "" {
+			if res.crashed {
+				c.Count("interrupted_and_restarted_runs", 1)
+			} else {
+				c.Count("interruption_point_not_reached", 1)
+			}
+		}
 		if res.run.TimedOut {
 			if res.run.Stalled {
 				c.Inconclusive("pipestance stalled (no state change for 25 run-loop iterations)")
@@ -575,6 +601,21 @@ func pickTimeout(t time.Duration) time.Duration {
 	return t
 }
 
+// crashFired: the trace shows the hook hit named in a VERIF_CRASH spec
+// ("name#k:SIG") as the last record of some mrp process.
+func crashFired(trace []vrun.TraceRec, spec string) bool {
+	name := spec
+	if i := strings.IndexByte(spec, '#'); i >= 0 {
+		name = spec[:i]
+	}
+	for _, t := range trace {
+		if t.Name == name && t.Crash != "" {
+			return true
+		}
+	}
+	return false
+}
+
 // fileTmplFor: every seventh case is a file-passing skeleton.
 func fileTmplFor(i int) int {
 	if i%7 != 4 {
@@ -651,6 +692,16 @@ func init() {
 				cases = append(cases, &flowCase{Index: i, Seed: seed, Cfg: cfg, Vdr: modes[i%3],
 					DelayMs: []int{0, 50, 150}[(i/3)%3], Delays: hook[i%len(hook)], Race: !c.Quick() && i%4 == 0,
 					Template: fileTmplFor(i)})
+				if i%5 == 2 {
+					// interruption and restart between partial and final cleanup: a
+					// handled signal at a VDR point (the removal + report of one
+					// cleanup step are a critical section), or SIGKILL at a run-loop
+					// boundary after clean-up has begun
+					crashes := []string{"vdr:partial:write#1:TERM", "vdr:some:removed#1:TERM", "vdr:remove:some#2:TERM",
+						"vdr:final:write#1:TERM", "vdr:partial:begin#2:INT", "cleanup:vdr_done#1:TERM", "vdr:pipestance:begin#1:TERM",
+						"vdr:remove:chunk_tmp#2:TERM", "loop:begin#4:KILL", "loop:begin#6:KILL", "vdr:partial:write#3:INT", "vdr:remove:join_tmp#1:TERM"}
+					cases[len(cases)-1].Crash = crashes[(i/5)%len(crashes)]
+				}
 			}
 			return cases
 		},
